@@ -175,6 +175,11 @@ def rule_i2osp_width(ctx, widths=I2OSP_WIDTH, cfg='prod-all'):
                 if callee_matches(t, 'utils::util::bbsplus_utils::i2osp'):
                     covered.add((fr.path, bi))
                     w = (t.get('cargs') or ['?'])[0]
+                    # inside a helper that is generic in the width (`prefixed::<N>`): the width this call chain instantiates it with
+                    f = fr
+                    while not str(w).isdigit() and f.parent is not None and f.call is not None and len(f.call.get('cargs') or []) == 1:
+                        w = f.call['cargs'][0]
+                        f = f.parent
                     yield Ob('RF-C', '%s#i2osp[%d].width' % (root, n), w in exp, 'I2OSP width', '%s L%s' % (fr.body.file(), t['line']),
                              fact={'width': w, 'in': fr.path.split('::')[-1]}, expected=sorted(exp))
                     n += 1
@@ -254,7 +259,8 @@ def rule_whole_ingredients(ctx, table=None, cfg='prod-all', min_sites=8):
                         continue
                     atoms = fr.lift(fr.fd.read_op(o))
                     ps = {a for a in atoms if a[0] == 'p'}
-                    others = {a for a in atoms if a[0] not in ('p', 'c')}
+                    # (the length of the same parameter showing up next to it - `&data[..n]` with n computed from data.len() - is still that parameter)
+                    others = {a for a in atoms if a[0] not in ('p', 'c', 'a') and not (a[0] in ('len', 'narrow') and (a[1] in ps or a[1][0] in ('c', 'a')))}
                     if len(ps) != 1 or others:
                         continue
                     (_, k, path) = next(iter(ps))
